@@ -4,7 +4,7 @@ From RV Require Import Prelude.
 From Tensor Require Import Overlap.
 From LayoutOps Require Import ArrayModel LayoutOps ModelC09 Array_proofs Denote_proofs
   SliceRange_proofs Gather_proofs Perm_proofs Bcast_proofs Reshape_proofs Copy_proofs
-  Defined_proofs Clip_proofs.
+  Defined_proofs Clip_proofs Append_proofs.
 From Coq Require Import Permutation.
 Open Scope N_scope.
 
@@ -20,6 +20,7 @@ Theorem op_matches_reference o st st' t :
   mdenote st' = ref_apply o t (result_shape st').
 Proof.
   intros Ht H. destruct o; try exact (clip_dim_denotes _ _ _ _ _ _ Ht H).
+  all: try (destruct (append_denotes _ _ _ _ _ _ Ht H) as [A1 A2]; rewrite A1, A2; reflexivity).
   all: unfold mdenote in *; cbn [apply_op ref_apply] in *.
   - (* slice *)
     destruct (zero_step items); [discriminate|].
@@ -73,6 +74,7 @@ Theorem op_error_means_undefined o st e t :
 Proof.
   intros Hsm Ht H. destruct o.
   17:{ destruct (clip_dim_error _ _ _ _ _ _ Ht H) as [->|Hn]; [now left|now right]. }
+  17:{ destruct (append_error _ _ _ _ _ _ Ht H) as [->|Hn]; [now left|now right]. }
   all: unfold mdenote in *; cbn [apply_op ref_apply] in *; try discriminate.
   - right. destruct (zero_step items); [reflexivity|].
     unfold lift in H. destruct (slice false (m_view st) items) eqn:E; [discriminate|].
@@ -140,6 +142,7 @@ Proof.
   intros Ht H.
   pose proof (op_matches_reference o st st' t Ht H) as Hm.
   destruct o; try exact (clip_dim_defined _ _ _ _ _ _ Ht H).
+  all: try (destruct (append_denotes _ _ _ _ _ _ Ht H) as [A1 _]; eexists; exact A1).
   all: unfold mdenote in *; cbn [apply_op ref_apply] in *.
   - destruct (zero_step items); [discriminate|].
     apply lift_ok in H as (v' & Hv & ->). rewrite Hm. exact (slice_defined _ _ _ _ _ Ht Hv).
